@@ -129,6 +129,15 @@ func (maps *trackedMaps) trackMap(tm *tMap) error {
 	}
 	switch {
 	case isMapPtr || tmKind == reflect.Map || tm.value.Type() == reflect.TypeOf(&structpb.Struct{}):
+		// we may need to check for kind.Ptr and then set tm = tm.Elem() but
+		// for now it's not required.
+		ptr := tm.value.Pointer()
+
+		// is it tracked (and so filtered on its own turn) by a parent? (asked
+		// before taking the lock: no lock is taken while another one is held)
+		if maps.trackedByParent(ptr) {
+			return nil
+		}
 		func() {
 			maps.l.Lock()
 			defer maps.l.Unlock()
@@ -136,16 +145,9 @@ func (maps *trackedMaps) trackMap(tm *tMap) error {
 			if maps.tracked == nil {
 				maps.tracked = make(map[uintptr]*tMap)
 			}
-			// we may need to check for kind.Ptr and then set tm = tm.Elem() but
-			// for now it's not required.
-			ptr := tm.value.Pointer()
 
 			// are we tracking this map already?
 			if _, ok := maps.tracked[ptr]; ok {
-				return
-			}
-			// is it tracked (and so filtered on its own turn) by a parent?
-			if maps.trackedByParent(ptr) {
 				return
 			}
 			maps.tracked[ptr] = tm
